@@ -20,11 +20,39 @@ def _run(c, name, n, seed=None, corr=CORR):
         c.cov.setdefault("notes", []).append(note)
 
 
+G_IMPORTS = ("From Ergo Require Import Common.Base Rel.Amap Rel.Model NetFail.Model NetFail.Guard NetFail.GuardCases.\n"
+             "Local Open Scope N_scope.")
+
+
+def _is_guard_replay(path):
+    import json
+    try:
+        return (json.load(open(path)).get("engine") or "").startswith("stale-incarnation")
+    except Exception:
+        return False
+
+
+def _stale(c, name, n, seed=None, replay=None, corr=("corr_guard",)):
+    """remote replies / requests across a restart of the peer: two real nodes, B restarted under the same name with the
+    same spawn order (twins with equal numeric ids), every request/response operation attempted with identifiers of the
+    previous incarnation (netfail guard; the rows SendResponse, SendResponseError, CallPID, CallAlias are C07's)"""
+    env = {"VERIF_SEED": str(seed)} if seed is not None else None
+    args = ["guard", "-replay", replay] if replay else ["guard", "-n", str(n), "-stream", "2"]
+    out = c.harness("netfail", args, timeout=600, env=env)
+    if out:
+        c.cases(name, out, G_IMPORTS, "gcase", corr=list(corr), spec=["spec_guard_calls"], premise=["premise_guard_calls"])
+
+
 def run(c):
     c.proofs("theories/Properties/C07.v", clean=(c.tier == "thorough"))
     c.translate(['TieIds'])  # T1: formulas / constants regenerated from the source, tie theorems re-checked
     n = 260 if c.tier == "quick" else 4000
+    if c.replay and _is_guard_replay(c.replay):
+        _stale(c, "stale-incarnation", 1, replay=c.replay)
+        return
     _run(c, "calls", n)
+    if not c.replay:
+        _stale(c, "stale-incarnation", 4 if c.tier == "quick" else 40)
     if c.broken and not c.violations and not c.replay:
         # something no longer checks: spend the extra search budget on the property monitors only
         keep = list(c.broken)
@@ -41,5 +69,6 @@ def run(c):
         "references of calls whose RouteCall* failed never leave the node: a placeholder outside MakeRef's range stands for them",
         "references pairwise distinct: Ids engine (C06 refs_never_repeat) - MakeRef is injective on 64-bit counters",
         "exactly-once of the callee's real MPSC mailbox is property C02; the Call model has an abstract FIFO per callee",
-        "remote callers/callees (network path of SendResponse) are outside this engine (C12)",
+        "remote callers / callees: the frame path is C12; across a restart of the peer the incarnation guard of the request / response "
+        "operations is the theorem C07_stale_incarnation, tied to two real nodes on every run (netfail guard rows)",
     ]
